@@ -109,6 +109,7 @@ def check_binary(res, op, UA, PA, WA, UB, PB, WB, tag):
         return
     if not lib.all_exact(C.ctrlpoints) or not lib.all_exact(C.weights) or not lib.all_exact(list(C.knotvector)):
         res.violation("type", f"{where}: inexact numbers in the result: {C.ctrlpoints} {C.weights}", **tags)
+    _alias_probe(res, C, ((A, sa), (B, sb)), where, tags)
 
 
 def run_case(case, res):
@@ -249,6 +250,19 @@ def one_unary(res, UA, p, P, W, name, fn, E):
         return
     if not lib.all_exact(o[1].ctrlpoints) or not lib.all_exact(o[1].weights):
         res.violation("type", f"{where}: inexact numbers in the result", **tags)
+    _alias_probe(res, o[1], ((A, sa),), where, tags)
+
+
+def _alias_probe(res, C, operands, where, tags):
+    """the result is a curve of its own: moving its KnotVector object in place must not move an operand"""
+    if not isinstance(C, lib.Curve) or any(C is x for x, _ in operands):
+        return
+    try:
+        C.knotvector.shift(1)
+    except Exception:  # noqa: BLE001
+        return
+    if any(lib.snap_curve(x) != sx for x, sx in operands):
+        res.violation("operand_modified", f"{where}: shifting the result's knot vector in place changed an operand", aliased=True, **tags)
 
 
 def _opclass(name):
